@@ -221,4 +221,38 @@ LMPop(d, a) ==
     IN  IF Len(a) < 3 \/ ~p.ok THEN Fail(d, EArg)
         ELSE MPopScan(d, p.keys, p.left, p.cnt)
 
+-----------------------------------------------------------------------------
+(* Blocking forms: TryB(d, nm, a) is the non-blocking attempt a blocking command makes - when it is issued,
+   and again whenever one of its lists may have become non-empty.  nil = nothing to pop (the client blocks,
+   except inside EXEC).  a = arguments after the name, including the timeout.                               *)
+\* timeout in ms: non-negative decimal with at most two fractional digits that are multiples of 0.25
+TimeoutMs(bs) == LET q == ParseQ(bs) IN [ok |-> q.ok /\ q.q >= 0, ms |-> q.q * 250]
+
+RECURSIVE BPopScan(_, _, _)
+BPopScan(d, ks, left) ==
+    IF ks = <<>> THEN Res(d, RNil)
+    ELSE LET k == Head(ks)
+             lst == ListOf(d, k)
+         IN  IF WrongType(d, k, "list") THEN Fail(d, WT)
+             ELSE IF ~Has(d, k) THEN BPopScan(d, Tail(ks), left)
+             ELSE Res(PutList(d, k, IF left THEN Tail(lst) ELSE SubSeq(lst, 1, Len(lst) - 1)),
+                      RArr(<<RBulk(k), RBulk(IF left THEN lst[1] ELSE lst[Len(lst)])>>))
+
+BTimeoutArg(nm, a) == IF nm = "BLMPOP" THEN a[1] ELSE a[Len(a)]
+BKeys(nm, a) == CASE nm \in {"BLPOP", "BRPOP"} -> SubSeq(a, 1, Len(a) - 1)
+                  [] nm \in {"BLMOVE", "BRPOPLPUSH"} -> <<a[1]>>
+                  [] OTHER -> LMPopArgs(Tail(a)).keys
+BArgsOk(nm, a) ==
+    CASE nm \in {"BLPOP", "BRPOP"} -> Len(a) >= 2 /\ TimeoutMs(a[Len(a)]).ok
+      [] nm = "BLMOVE" -> Len(a) = 5 /\ IsLR(a[3]) /\ IsLR(a[4]) /\ TimeoutMs(a[5]).ok
+      [] nm = "BRPOPLPUSH" -> Len(a) = 3 /\ TimeoutMs(a[3]).ok
+      [] OTHER -> Len(a) >= 4 /\ TimeoutMs(a[1]).ok /\ LMPopArgs(Tail(a)).ok
+TryB(d, nm, a) ==
+    IF ~BArgsOk(nm, a) THEN Fail(d, EArg)
+    ELSE CASE nm = "BLPOP" -> BPopScan(d, BKeys(nm, a), TRUE)
+           [] nm = "BRPOP" -> BPopScan(d, BKeys(nm, a), FALSE)
+           [] nm = "BLMOVE" -> MoveCore(d, a[1], a[2], Is(a[3], "LEFT"), Is(a[4], "LEFT"))
+           [] nm = "BRPOPLPUSH" -> MoveCore(d, a[1], a[2], FALSE, TRUE)
+           [] OTHER -> LMPop(d, Tail(a))
+
 =============================================================================
